@@ -198,3 +198,46 @@ def yield_clock_agreement(chk, prog, rule: str):
                                   "dap - delayed_cds - HIstartCD - 1 by the sibling routines: their guards (HIt > 0) no longer protect "
                                   "the divisions by that quantity (ZeroDivisionError when germination was delayed)", loc=fi.loc(a))
     chk.floor(rule, n, 4, "definitions of the yield-formation clock")
+
+
+# --------------------------------------------------------------------------------------------- calendar conversion scope
+
+AGGREGATORS = {"mean", "median", "average", "nanmean", "nanmedian"}
+
+
+def season_aggregate_calendar(chk, prog, rule: str):
+    """The calendar-day -> thermal-time conversion of a SwitchGDD crop must not make one season's calendar depend on the weather of the
+    other seasons in the window. Reported: a function below _initialize that sets attributes of a crop parameter object (its formal) to
+    an aggregate (mean / median) of values collected over a loop - the per-season stage thresholds averaged over all seasons."""
+    from ..common import INIT_ROOT
+    n = 0
+    for key in sorted(prog.reachable_from(INIT_ROOT)):
+        fi = prog.funcs.get(key)
+        if fi is None:
+            continue
+        where = f"{fi.module}:{fi.qualname}"
+        params = set(fi.params)
+        loops = [x for x in walk_no_nested(fi.node) if isinstance(x, ast.For)]
+        if not loops:
+            continue
+        for c in walk_no_nested(fi.node):
+            tgt = val = None
+            if isinstance(c, ast.Call) and isinstance(c.func, ast.Name) and c.func.id == "setattr" and len(c.args) == 3 \
+                    and isinstance(c.args[0], ast.Name) and c.args[0].id in params:
+                tgt, val = c.args[0].id, c.args[2]
+            elif isinstance(c, ast.Assign) and isinstance(c.targets[0], ast.Attribute) and isinstance(c.targets[0].value, ast.Name) \
+                    and c.targets[0].value.id in params:
+                tgt, val = c.targets[0].value.id, c.value
+            if tgt is None:
+                continue
+            if isinstance(val, ast.Call) and isinstance(val.func, ast.Attribute) and val.func.attr in AGGREGATORS:
+                n += 1
+                chk.fn(key)
+                agg = val.func.attr
+                chk.violation(rule, where, f"{tgt}.<stage> = {agg}(values collected per season)",
+                              f"the thermal-time calendar of a SwitchGDD crop is the {agg} over all seasons of the simulation window "
+                              f"(`{norm(c)[:70]}`): season k of a multi-season run gets a different calendar than a single-season run of the same "
+                              "year, and extending the end date changes the calendar - hence the results - of seasons already completed",
+                              loc=fi.loc(c))
+    chk.notes[rule + "_season_aggregates"] = n
+    return n
